@@ -47,15 +47,51 @@ def semantic_iat(ans):
     return "/".join(out) or "-"
 
 
+def gen_imports_iter(rng, tier):
+    """iterator histories (front, back, nth, len, clone) over the descriptor and IAT iterators of generated images"""
+    from .props_misc import histories
+    hs = histories(rng, 100 if tier == "quick" else 2000)
+    cases = []
+    src = gen_imports.gen_imports(gen_imports.rng_clone(rng), "quick")
+    for case in src if tier != "quick" else rng.sample(src, min(60, len(src))):
+        ks = sorted(set(l.split(" ")[1] for l in case if l.startswith("imports ")))
+        if not ks:
+            continue
+        out = [l for l in case if l.startswith("img ") or l.startswith("from_bytes ")]
+        for k in ks:
+            for so in (("wimports",) if k.startswith("w") else ("imports", "iat")):
+                for h in rng.sample(hs, 4):
+                    out.append("iter %s %s %s" % (k.split("@")[0], so, h))
+        cases.append(out)
+    return cases
+
+
 class C09(Prop):
     named_errors = {"Null"}               # "reports the null error rather than an empty or bogus table"
     pid = "C09"
     title = "Import descriptors, name tables and the IAT are decoded as stored"
     thm_modules = ["PeliteModel.Thm.C09"]
-    gens = [gen_imports.gen_imports_corpus, gen_imports.gen_imports_edge, gen_imports.gen_imports]
+
+    @property
+    def gens(self):
+        return [gen_imports.gen_imports_corpus, gen_imports.gen_imports_edge, gen_imports.gen_imports, gen_imports_iter]
+
+    def judge(self, op, impl, model, spec):
+        if op.startswith("iter "):
+            # answered by the harness alone (the iterator against the deque of its own items)
+            t = self.oracle(op, impl, model, spec)
+            return {"kind": "spec", "text": t} if t else None
+        return Prop.judge(self, op, impl, model, spec)
 
     def oracle(self, op, impl, model, spec):
         fam = op.split(" ", 1)[0]
+        if fam == "iter":
+            # "reported in order": the descriptor / IAT iterators consumed from either end, by nth, len, clone
+            if klass(impl) in ("panic", "crash", "timeout"):
+                return "iterator history: %s: %s" % (klass(impl), impl[:200])
+            if klass(impl) == "ok" and ("deque_same=0" in impl or "fused=0" in impl):
+                return "import iterator disagrees with the sequence of its items / is not fused: %s" % impl[:300]
+            return None
         if fam not in ("imports", "iat"):
             return None
         if klass(impl) in ("panic", "crash", "timeout"):
